@@ -144,6 +144,51 @@ def _corrupt_ti_stage2(o):
     o.stage2.mainimage = "/abs/stage2.img"
 
 
+def _corrupt_di_bytes_description(o):
+    o.description = b"Fedora 21"
+
+
+def _corrupt_di_bytes_arch(o):
+    o.arch = b"x86_64"
+
+
+def _corrupt_di_disc_numbers(o):
+    o.disc_numbers = "ALL"
+
+
+def _corrupt_ti_image_key(o):
+    o.images.images["x86_64"][None] = "images/none.img"
+
+
+def _corrupt_ti_platform_key(o):
+    o.tree.platforms = set(["x86_64", "xen", None])
+
+
+def _corrupt_ti_checksum_value(o):
+    o.checksums.checksums["images/boot.iso"] = ["sha256", None, "extra"]
+
+
+def _corrupt_im_additional_variants_set(o):
+    img = sorted((i for v in o.images.values() for a in v.values() for i in a), key=lambda i: i.path)[0]
+    img.unified, img.additional_variants = True, set(["Client", "Server"])
+
+
+def _corrupt_im_checksums_list(o):
+    sorted((i for v in o.images.values() for a in v.values() for i in a), key=lambda i: i.path)[0].checksums = set(["sha256"])
+
+
+def _corrupt_im_volume_id_bytes(o):
+    sorted((i for v in o.images.values() for a in v.values() for i in a), key=lambda i: i.path)[0].volume_id = b"vol"
+
+
+def _corrupt_ci_variant_name_bytes(o):
+    o["Server"].name = b"Server"
+
+
+def _corrupt_ci_release_name_set(o):
+    o.release.name = set(["Fedora"])
+
+
 # real invalid values whose defect sits in a nested part: (base, corrupting function)
 REAL = [
     ("composeinfo:flat", _corrupt_ci_label), ("composeinfo:layered", _corrupt_ci_release),
@@ -153,6 +198,13 @@ REAL = [
     ("rpms", _corrupt_compose_type), ("modules", _corrupt_compose_date), ("extra_files", _corrupt_compose_type),
     ("treeinfo:nested", _corrupt_ti_child), ("treeinfo:flat", _corrupt_ti_images), ("treeinfo:layered", _corrupt_ti_media),
     ("treeinfo:layered", _corrupt_ti_bp), ("treeinfo:flat", _corrupt_ti_checksums), ("treeinfo:flat", _corrupt_ti_stage2),
+    # wrong-typed values of validated fields: json / ConfigParser / str.join cannot write them, so a validator that lets them
+    # through moves the failure to the moment the file is already open
+    ("discinfo", _corrupt_di_bytes_description), ("discinfo", _corrupt_di_bytes_arch), ("discinfo", _corrupt_di_disc_numbers),
+    ("treeinfo:flat", _corrupt_ti_image_key), ("treeinfo:flat", _corrupt_ti_platform_key), ("treeinfo:flat", _corrupt_ti_checksum_value),
+    ("images:grid", _corrupt_im_additional_variants_set), ("images:grid", _corrupt_im_checksums_list),
+    ("images:v11", _corrupt_im_volume_id_bytes), ("composeinfo:forest", _corrupt_ci_variant_name_bytes),
+    ("composeinfo:flat", _corrupt_ci_release_name_set),
 ]
 REAL_BY_NAME = {"%s/%s" % (b, f.__name__[9:]): (b, f) for b, f in REAL}
 
@@ -299,7 +351,7 @@ def describe(tier):
         "rule": "for each of 12 base objects (composeinfo flat/forest/layered, images grid/1.1, rpms, modules, extra files, "
                 "treeinfo flat/nested(with main_variant)/layered, discinfo): every validator invocation made during dump(path) - "
                 "those of the top-level validate() and those made inside nested section writers - fails once (injected ValueError), "
-                "for both pre-states {no file, previous good copy}; plus 16 really invalid nested values.  Oracle: dump raises and "
+                "for both pre-states {no file, previous good copy}; plus 27 really invalid values (16 out-of-domain nested values, 11 wrong-typed values of validated fields that the file writer could not emit).  Oracle: dump raises and "
                 "the path has exactly its pre-state (same bytes / still absent), no other file appears.  Non-trivial: a failure "
                 "point inside a nested writer (beyond the top-level check) or a real invalid value.",
         "bound": "one failure per dump; all injection points of each base object",
